@@ -16,7 +16,6 @@ Ltac Zify.zify_post_hook ::= Z.to_euclidean_division_equations.
 Import Proofs.Date.
 Import Proofs.C20Text.
 Import Proofs.C15.
-Set Default Timeout 60.
 
 (** * the wall clock of every well-formed date-time: a date word with known fields (a represented
       date or one of the two headroom words) and a valid time of day *)
@@ -149,21 +148,21 @@ Qed.
 Lemma returns_wok w : returns (to_text (wok w)).
 Proof. split; discriminate. Qed.
 
-Lemma show_date_total d : date_valid d -> returns (to_text (date_debug [] d)) /\ returns (to_text (date_display [] d)).
+Lemma show_date_total d : date_valid d -> returns (Model.Show.to_text (Model.Show.date_debug [] d)) /\ returns (Model.Show.to_text (Model.Show.date_display [] d)).
 Proof.
   intros (y & o & H). unfold date_display. rewrite (date_debug_text [] y o d H). split; apply returns_wok.
 Qed.
-Lemma show_time_total t : time_valid t -> returns (to_text (time_debug [] t)) /\ returns (to_text (time_display [] t)).
+Lemma show_time_total t : time_valid t -> returns (Model.Show.to_text (Model.Show.time_debug [] t)) /\ returns (Model.Show.to_text (Model.Show.time_display [] t)).
 Proof. intros H. unfold time_display. rewrite (time_debug_text [] t H). split; apply returns_wok. Qed.
-Lemma show_ndt_total a : Proofs.C04.ndt_ok a -> returns (to_text (ndt_debug [] a)) /\ returns (to_text (ndt_display [] a)).
+Lemma show_ndt_total a : Proofs.C04.ndt_ok a -> returns (Model.Show.to_text (Model.Show.ndt_debug [] a)) /\ returns (Model.Show.to_text (Model.Show.ndt_display [] a)).
 Proof.
   intros [Hd Ht]. destruct (Proofs.C04Date.repr_of_nominal _ Hd) as (y & o & H). destruct a as [d t]. cbn [nd_date nd_time] in *.
   rewrite (ndt_debug_text [] y o d t H Ht), (ndt_display_text [] y o d t H Ht). split; apply returns_wok.
 Qed.
 Lemma show_fixed_offset_total off : Proofs.C04.off_ok off ->
-  returns (to_text (fixed_debug [] off)) /\ returns (to_text (fixed_display [] off)).
+  returns (Model.Show.to_text (Model.Show.fixed_debug [] off)) /\ returns (Model.Show.to_text (Model.Show.fixed_display [] off)).
 Proof. intros H. unfold fixed_display. destruct (fixed_debug_any [] off H) as (txt & ->). split; apply returns_wok. Qed.
-Lemma show_utc_total : returns (to_text (utc_debug [])) /\ returns (to_text (utc_display [])).
+Lemma show_utc_total : returns (Model.Show.to_text (Model.Show.utc_debug [])) /\ returns (Model.Show.to_text (Model.Show.utc_display [])).
 Proof. split; apply returns_wok. Qed.
 Lemma ndt_debug_any w d y m dd t : date_fields d y m dd -> tvalid t ->
   ndt_debug w (mk_ndt d t) = wok (w ++ ndt_txt 84 y m dd (Time.tsecs t) (Time.tfrac t)).
@@ -183,7 +182,7 @@ Proof.
 Qed.
 (* DateTime<Tz> ([utc]: Tz = Utc): any wall clock (also one day outside the date range), any offset *)
 Lemma show_dtz_total utc a : Proofs.C04.dtz_ok a ->
-  returns (to_text (dtz_debug utc [] a)) /\ returns (to_text (dtz_display utc [] a)).
+  returns (Model.Show.to_text (Model.Show.dtz_debug utc [] a)) /\ returns (Model.Show.to_text (Model.Show.dtz_display utc [] a)).
 Proof.
   intros Ha. destruct (local_of_dtz_ok a Ha) as (d' & y' & m' & dd' & t' & El & Hf & Ht).
   unfold dtz_debug, dtz_display. rewrite El. cbn [bind].
@@ -196,4 +195,29 @@ Proof.
       rewrite E1. apply returns_wok.
     + match goal with |- returns (to_text (fixed_debug ?w1 _)) => destruct (fixed_debug_any w1 (dz_off a) (proj2 Ha)) as (x1 & E1) end.
       rewrite E1. apply returns_wok.
+Qed.
+
+(** * the wide hypotheses are inhabited: MAX_UTC's last second with a leap-second fraction seen from
+      +02:00 (the wall clock is one day outside the date range), and 2016-12-31T23:59:60.5 *)
+From V Require Model.Round Model.TimeDelta Proofs.C17 Proofs.C07Ndt.
+Definition z_wide : dtz := mk_dtz (mk_ndt Model.Date.D_MAX (Time.mk_time 86399 1999999999)) 7200.
+Definition l_wide : ndt := mk_ndt Proofs.C07Ndt.leap_date (Time.mk_time 86399 1500000000).
+Lemma wide_hypotheses_inhabited :
+  Proofs.C04.dtz_ok z_wide /\ Proofs.C04.in_rng (Proofs.C04.wall z_wide) = false /\
+  Model.Rfc3339.to_rfc3339 z_wide = Val (B"+262143-01-01T01:59:60.999999999+02:00") /\
+  Model.Rfc3339.to_rfc3339_opts z_wide 1 true = Val (B"+262143-01-01T01:59:60.999+02:00") /\
+  Model.Show.to_text (Model.Show.dtz_display false [] z_wide) = Val (B"+262143-01-01 01:59:60.999999999 +02:00") /\
+  Proofs.C17.dz_op Proofs.C17.MRound z_wide (Model.TimeDelta.mk_td 3600 0) = Val (inr Model.Round.TimestampExceedsLimit) /\
+  Proofs.C04.ndt_ok l_wide /\
+  Model.DateTime.dt_timestamp_nanos_opt l_wide = Val (Some 1483228800500000000) /\
+  Proofs.C17.ndt_op Proofs.C17.MTrunc l_wide (Model.TimeDelta.mk_td 3600 0)
+    = Val (inl (Model.DateTime.mk_ndt Proofs.C07Ndt.leap_date (Model.Time.mk_time 86399 1000000000))).
+Proof.
+  assert (N1 : Proofs.C04.nominal Model.Date.D_MAX) by (exists 262142, 365; vm_compute; repeat split; reflexivity).
+  assert (N2 : Proofs.C04.nominal Proofs.C07Ndt.leap_date) by (exists 2016, 366; vm_compute; repeat split; reflexivity).
+  split; [split; [split; [exact N1|vm_compute; repeat split; discriminate]|vm_compute; split; reflexivity]|].
+  split; [vm_compute; reflexivity|]. split; [vm_compute; reflexivity|]. split; [vm_compute; reflexivity|].
+  split; [vm_compute; reflexivity|]. split; [vm_compute; reflexivity|].
+  split; [split; [exact N2|vm_compute; repeat split; discriminate]|].
+  split; vm_compute; reflexivity.
 Qed.
